@@ -794,7 +794,7 @@ func (r *RigR) checkDrops(delivered map[string]map[int64]*srcRef, stopped map[in
 			// known defect: the partition barrier is sized by the handlers that had registered the
 			// collection when AddPartition ran; distinguish that precondition from any other early drop
 			for _, o := range r.ops {
-				if o.op.Kind == "addpart" && o.op.Coll == k.coll && o.op.Part == k.part && o.done && (o.regAtDone < len(c.SrcV) || (o.regAtLoop > 0 && o.regAtLoop-1 < len(c.SrcV))) {
+				if o.op.Kind == "addpart" && o.op.Coll == k.coll && o.op.Part == k.part && o.done && (o.regAtDone < len(c.SrcV) || (o.regAtLoop > 0 && o.regAtLoop-1 < len(c.SrcV)) || (o.handlers > 0 && o.handlers < len(c.SrcV))) {
 					rule = "drop_early_partial_barrier"
 				}
 			}
